@@ -7,6 +7,7 @@ static struct { const char *name; int (*fn)(FILE *, FILE *); } cmds[] = {
     {"hash", cmd_hash},
     {"pin", cmd_pin},
     {"meta", cmd_meta},
+    {"chunkreq", cmd_chunkreq},
     {"readenum", cmd_readenum},
     {NULL, NULL}
 };
